@@ -6,7 +6,7 @@ REPO = os.environ.get("VERIF_REPO", "/repo")
 BUILD = os.path.join(VERIF, "_build")
 CRATE = os.path.join(REPO, "crates", "sas-lexer")
 SRC = os.path.join(CRATE, "src", "lexer")
-NCPU = min(16, os.cpu_count() or 4)
+NCPU = int(os.environ.get("VERIF_NCPU", min(16, os.cpu_count() or 4)))
 
 
 def log(*a):
